@@ -28,11 +28,19 @@ MANIFEST = dict(
          "grammar to show it is an instance. Props/C01enc.lean proves C01 for the whole-encoder model: every document "
          "of the decidable domain InDomain that Model.Encode.encode accepts prints to well-formed RTF (any number of "
          "pages, rows, columns, any admissible text); the encoder models (single-section, multi-section, figure) are "
-         "compared byte for byte with rtf_encode() on every run.",
-    note="Success of rtf_encode() for every accepted configuration is an observation-level clause (the generator "
-         "covers the configuration product; exceptions other than the documented ValueError are violations). The "
-         "harness's parser of real output into the grammar is trusted only fail-safe: any slip shows as a re-print "
-         "mismatch.",
+         "compared byte for byte with rtf_encode() on every run. Props/C01total.lean proves the FIRST clause for the "
+         "encoder model (C01_encode_total): on every post-construction state the constructors guarantee (decidable "
+         "`accepted`) whose attribute shapes are those of C01's quantifier (decidable `shapesInQuantifier`) the model "
+         "returns a document, or raises ValueError and the group_by keys are not contiguous — never anything else; "
+         "`accepted` is checked against the real constructors in both directions on every run.",
+    note="Totality is a theorem about the encoder MODEL (byte-exact against rtf_encode() on every generated document, "
+         "exceptions included); of the real encoder it is observed on the configuration product (exceptions other than "
+         "the documented ValueError are violations). Configurations the constructors accept outside the quantifier "
+         "(empty attribute lists, ragged matrices, None for a required text attribute, col_rel_width=None on a "
+         "table-rendered footnote, empty header text, page_by consuming every column, width vectors shorter than the "
+         "cells) raise inside rtf_encode(): domain decisions (DESIGN §8), each with a Lean witness and a real replay "
+         "on every run. The harness's parser of real output into the grammar is trusted only fail-safe: any slip shows "
+         "as a re-print mismatch.",
     technique="Lean 4 proof (lexer/printer inversion, folds over tokens; well-formedness of the whole-encoder model's "
               "output) + Lean-decided oracle on real output + grammar-instance and byte-exact encoder correspondence",
     design="7/C01",
@@ -336,6 +344,13 @@ def run(res, build):
     # very string rtf_encode() returns
     outs = encodecorr.run(res, res.tier)
     res.evaluations += len(outs)
+    # first clause (totality, Props/C01total.lean): the decidable hypotheses `accepted` / `shapesInQuantifier` /
+    # `measureOk` of the totality theorem evaluated on the same post-construction states — `accepted` is neither
+    # narrower nor wider than the real constructors, and the theorem's partition (encodes / refused for non-contiguous
+    # keys / outside the quantifier) is the one the real encoder shows
+    from .. import encodetotal
+
+    res.evaluations += encodetotal.run(res, outs)
     # the multi-section path (Model/EncodeMulti.lean), the figure path (Model/EncodeFigure.lean) and nested header
     # lists on a single frame, byte-exact as well
     from .. import encodecorr2
@@ -416,6 +431,10 @@ def replay(payload):
         from .. import encodecorr2
 
         return encodecorr2.replay_case(case)
+    if str(case.get("level", "")).startswith("encode-total"):
+        from .. import encodetotal
+
+        return encodetotal.replay_case(case)
     if "spec" not in case:
         for b in payload.get("broken", []):
             print("no longer checks:", b.get("kind"), "-", (b.get("why") or b.get("log") or "")[:600])
